@@ -1,10 +1,12 @@
 /-
 `Clone()` keeps the heap sound and acyclic: the copy is itself a well-formed tree (every new node satisfies the structural
 invariant, hangs under an EARLIER new node that lists it, and the root of the copy has no parent), and nothing old changes.
-With this, `Clone` joins the edits of `Proofs/History`: any history of edits AND clones keeps the invariant (`steps_sound`).
+With this, `Clone` joins the edits of `Proofs/History`, together with SetArray / SetObject (`Proofs/SetContainer`): any history of
+edits, clones and container assignments keeps the invariant (`steps_sound`).
 -/
 import Ajson.Proofs.CloneIso
 import Ajson.Proofs.History
+import Ajson.Proofs.SetContainer
 namespace Ajson.Proofs
 open Ajson Ajson.Heap
 
@@ -423,18 +425,24 @@ theorem clone_sound {h : Heap} (hs : Struct h) (ha : Acyc h) (n : Nat) (hn : n <
 
 /-! ### histories of edits and clones -/
 
-/-- one step of a history: an edit request, or `Clone()` of a node -/
+/-- one step of a history: an edit request, `Clone()` of a node, or SetArray / SetObject with any elements -/
 inductive Step
   | edit (e : Edit)
   | clone (n : Nat)
+  | setArray (n : Nat) (ids : List Nat)
+  | setObject (n : Nat) (kv : List (Bytes × Nat))
 
 def Step.names : Step → List Nat
   | .edit e => e.names
   | .clone n => [n]
+  | .setArray n ids => n :: ids
+  | .setObject n kv => n :: kv.map (·.2)
 
 def Step.run (h : Heap) : Step → Heap
   | .edit e => e.run h
   | .clone n => (h.clone n).1
+  | .setArray n ids => (h.update (some n) (.arr ids)).1
+  | .setObject n kv => (h.update (some n) (.obj kv)).1
 
 /-- every step names nodes that exist when it is made — including the nodes earlier clones have made -/
 def ValidSteps : Heap → List Step → Prop
@@ -450,8 +458,15 @@ theorem Step.sound {h : Heap} (hs : Struct h) (ha : Acyc h) (s : Step) (hnames :
   | clone n =>
     obtain ⟨a, b, c, _⟩ := clone_sound hs ha n (hnames n (by simp [Step.names]))
     exact ⟨a, b, Nat.le_of_lt c⟩
+  | setArray n ids =>
+    obtain ⟨a, b, c⟩ := setArray_sound hs ha n (hnames n (by simp [Step.names])) ids (fun x hx => hnames x (by simp [Step.names, hx]))
+    exact ⟨a, b, Nat.le_of_eq c.symm⟩
+  | setObject n kv =>
+    obtain ⟨a, b, c⟩ := setObject_sound hs ha n (hnames n (by simp [Step.names])) kv
+      (fun p hp => hnames p.2 (by simp only [Step.names, List.mem_cons, List.mem_map]; exact Or.inr ⟨p, hp, rfl⟩))
+    exact ⟨a, b, Nat.le_of_eq c.symm⟩
 
-/-- **any history of edits and clones**, each step on any nodes that exist at that moment (the copies included), leaves a sound
+/-- **any history of edits, clones and SetArray / SetObject**, each step on any nodes that exist at that moment (the copies included), leaves a sound
 acyclic heap -/
 theorem steps_sound : ∀ (ss : List Step) (h : Heap), Struct h → Acyc h → ValidSteps h ss →
     Struct (ss.foldl Step.run h) ∧ Acyc (ss.foldl Step.run h) ∧ h.size ≤ (ss.foldl Step.run h).size
